@@ -159,7 +159,8 @@ def t_cleanup_real(ctx):
     N = int(ctx.int('N', 1, K))
     # restarted: completed (signal set) on one bus, then in flight again on another (forwarding / re-dispatch of the same object);
     # waiting_children: all handlers returned but a child event is still pending — both are in flight, not completed
-    kinds = [ctx.pick(f's{i}', ('pending', 'started', 'completed', 'completed_nohandlers', 'restarted', 'waiting_children')) for i in range(k)]
+    KINDS = tuple(ctx.cfg.get('kinds') or ('pending', 'started', 'completed', 'completed_nohandlers', 'restarted', 'waiting_children'))
+    kinds = [ctx.pick(f's{i}', KINDS) for i in range(k)]
     perms = list(itertools.permutations(range(k)))
     pi = int(ctx.int('perm', 0, max(0, len(perms) - 1)))
     order = perms[pi] if perms else ()
@@ -304,8 +305,12 @@ def jobs(tier):
     K = 4 if tier == 'quick' else 5
     for k in range(0, K + 1):
         out.append(Job('C13', 'k.cleanup', t_cleanup, dict(k=k, K=K), witnesses=('evicted',) if k >= 2 else ()))
-    for k in range(0, (3 if tier == 'quick' else 4) + 1):
+    for k in range(0, 3 + 1):
         out.append(Job('C13', 'k.cleanup_real', t_cleanup_real, dict(k=k, K=3 if tier == 'quick' else 4), witnesses=('evicted',) if k >= 2 else ()))
+    if tier != 'quick':
+        # four real events: the two six-kind halves that matter most, to keep the job tractable (6^4 * 4! * 4 paths otherwise)
+        out.append(Job('C13', 'k.cleanup_real', t_cleanup_real, dict(k=4, K=4, kinds=['pending', 'started', 'completed', 'completed_nohandlers']), witnesses=('evicted',)))
+        out.append(Job('C13', 'k.cleanup_real', t_cleanup_real, dict(k=4, K=4, kinds=['started', 'completed', 'restarted', 'waiting_children']), witnesses=('evicted',)))
     Ks = 3 if tier == 'quick' else 4
     for k in range(0, Ks + 1):
         out.append(Job('C13', 'k.dispatch_step', t_dispatch_step, dict(k=k, K=Ks)))
